@@ -17,6 +17,8 @@ mod phys;
 mod evt;
 #[cfg(feature = "physics")]
 mod drift;
+#[cfg(feature = "physics")]
+mod recon;
 
 fn main() {
     let args: Vec<String> = std::env::args().collect();
